@@ -14,6 +14,7 @@ import (
 	"fmt"
 	"math/big"
 	"runtime"
+	"sync/atomic"
 	"time"
 
 	"github.com/tjfoc/gmsm/gmtls"
@@ -380,7 +381,7 @@ func resize(valid []byte, ts []tlv, i int, repl []byte) []byte {
 
 // guardCall runs one decoder call with panic capture, an allocation budget and a watchdog.
 func guardCall(c *harness.Ctx, t *target, kind string, in []byte) {
-	if t.hung {
+	if t.hung || tooManyHangs() {
 		c.Add("inputs_skipped_after_a_hang", 1)
 		return
 	}
@@ -441,8 +442,17 @@ func guardCall(c *harness.Ctx, t *target, kind string, in []byte) {
 		}
 		c.Violate(fmt.Sprintf("hang:%s:%s", t.name, kind), fmt.Sprintf("%s did not return within %v on a %d-byte input (%s)\ninput=%s", t.name, limit, len(in), kind, hex.EncodeToString(clip(in, 400))), nil, hex.EncodeToString(clip(in, 4096)))
 		t.hung = true
+		atomic.AddInt32(&procHangs, 1)
 	}
 }
+
+// procHangs counts calls and sessions of this worker process that did not return. Their goroutines
+// keep spinning, so after the second one further timing in this process means nothing (and every
+// further hang costs its full time limit): the violations are recorded, the rest of the process's
+// work is skipped and counted as skipped. On a tree without hangs the counter stays 0.
+var procHangs int32
+
+func tooManyHangs() bool { return atomic.LoadInt32(&procHangs) >= 2 }
 
 func clip(b []byte, n int) []byte {
 	if len(b) > n {
